@@ -478,6 +478,9 @@ X_Conc(e) == Ok(e) /\ e.r[1] = e.r[2]
 \* list laws: "<Op>ListIsUnionOfMembers" - a list function applied to a list whose members differ in zoom pair, or
 \* lie a power-of-two stride apart, or coincide under a packed (zoom, index) key, returns the union of what it
 \* returns for each member alone (C03, C08, C13, C17: "for every list", "each tile / voxel its own range")
+\* a voxelisation call that the harness's watchdog had to give up on (no return within the limit, or allocation without
+\* bound) is recorded with a non-empty `bad`; one that returns is only required to have returned
+X_LineCall(e) == e.o \in {"ok", "err"}
 X_Law(e) == Ok(e) /\ e.r[1] = e.r[2] /\ e.r[1] # <<>>
 
 \* ---- dispatch -------------------------------------------------------------
@@ -559,6 +562,7 @@ Explains(e) ==
       [] e.op = "Angles"               -> X_Angles(e)
       [] e.op = "ObjHistory"           -> X_ObjHistory(e)
       [] e.op = "Law"                  -> X_Law(e)
+      [] e.op = "LineCall"             -> X_LineCall(e)
       [] OTHER -> FALSE
 
 \* what the specification expected (diagnostics for a rejected line)
